@@ -6,7 +6,9 @@ from pyvc.effects import check_keycover, result
 RANK = ("cfg_t2", "ranking")
 # ---- T2 stage cache (process global _T2_CACHE)
 R.fclause("C05", "t2-stage-key", "custom", "clematis/engine/stages/t2/core.py:t2_semantic", fn=check_keycover,
-          key_var="ckey", cache_expr="cache",
+          key_var="ckey", cache_expr="cache", injective_wrappers=["_quality_digest"],
+          # trusted representations: index_version() is bumped on every content change of the memory index
+          represented_by={"index": "index_ver"},
           cfg_vars=["cfg_t2", "ranking", "cfg_root", "qcfg", "partitions_cfg", "_rfcfg", "_t3cfg"],
           inputs=[("tiers", "tier list"), ("q_text", "query text incl. T1 labels"), ("index", "memory index identity/content"),
                   ("exact_recent_days", "recency window"), ("sim_threshold", "similarity threshold"),
@@ -24,7 +26,7 @@ R.fclause("C05", "t2-stage-key", "custom", "clematis/engine/stages/t2/core.py:t2
                       (("_t3cfg", "reflection"), "as above"), (("_rfcfg", "topk_snippets"), "as above")])
 
 # ---- T1 stage cache (process global _T1_CACHE), key built inside the per-graph closure
-R.fclause("C05", "t1-stage-key", "custom", "clematis/engine/stages/t1.py:t1_propagate.<locals>._t1_one_graph", fn=check_keycover,
+R.fclause(["C05", "C17"], "t1-stage-key", "custom", "clematis/engine/stages/t1.py:t1_propagate.<locals>._t1_one_graph", fn=check_keycover,
           key_var="ckey", cache_expr="cache", cfg_vars=["cfg_t1"],
           inputs=[("gid", "graph id"), ("edge_mult", "relation multipliers"),
                   ("radius_cap", "radius cap"), ("effective_iter_cap_layers", "layer cap"), ("effective_queue_budget", "pop budget"),
@@ -35,6 +37,8 @@ R.fclause("C05", "t1-stage-key", "custom", "clematis/engine/stages/t1.py:t1_prop
 # ---- turn-level namespaced cache in run_turn: key = (version_etag, input_text); fresh computation = t2_semantic(ctx, state, input_text, t1)
 R.fclause("C05", "turn-level-key", "custom", "clematis/engine/orchestrator/core.py:Orchestrator.run_turn", fn=check_keycover,
           key_var="key", cache_expr="cm", region_call="t2_semantic", cfg_vars=[],
+          # trusted representation: state.version_etag is bumped by every apply (C04) -- edits outside apply are not covered
+          represented_by={"state": "ver"},
           inputs=[("input_text", "query"), ("state", "store/memory content (represented by version_etag)"),
                   ("t1", "T1 labels appended to the query")],
           must_feed=[("agent_id", "agent -> owner scope of the retrieval")])
